@@ -996,6 +996,25 @@ func b2i(b bool) int64 {
 }
 
 func main() {
+	replayTable := -1
+	if p := os.Getenv("VERIF_REPLAY"); p != "" {
+		// a replay file names seed, tier and the table index; everything else is regenerated
+		var rp struct {
+			Seed   int64  `json:"seed"`
+			Tier   string `json:"tier"`
+			Replay struct {
+				Table *int `json:"table"`
+			} `json:"replay"`
+		}
+		b, err := os.ReadFile(p)
+		if err != nil || json.Unmarshal(b, &rp) != nil || rp.Replay.Table == nil {
+			fmt.Println("C01: cannot use replay file", p)
+			os.Exit(2)
+		}
+		os.Setenv("VERIF_SEED", fmt.Sprint(rp.Seed))
+		os.Setenv("VERIF_TIER", rp.Tier)
+		replayTable = *rp.Replay.Table
+	}
 	res := mon.NewResult("C01")
 	res.Rule = "tables generated from (seed,index): 0-4 blacklist entries, 0-3 rewriters (literal with max / regex / not-clause), 0-3 never-flushing aggregations (40% drop-raw), 1-6 routes (capture, sendAllMatch, sendFirstMatch, consistentHashing; 1-4 refusing destinations each), all six filter options over the alphabet a-f and '.'; lines over the same alphabet (a third seeded with the table's own filter material, 10% invalid); 60% of a table's lines dispatched one by one with exact per-line attribution, 40% from 8 concurrent dispatchers compared as multisets/totals; non-trivial = the line is accepted by >= 2 routes and rejected by >= 1 destination filter inside an accepting route; distinct = (table, routes accepting, per-destination expectation)"
 	res.Assume("validity of the generated lines is decided by the documentation-derived validator on classes it is confident about (validation itself is property C02)")
@@ -1004,17 +1023,7 @@ func main() {
 
 	n := mon.N(150, 4000)
 	var st stats
-	only := -1
-	if p := os.Getenv("VERIF_REPLAY"); p != "" {
-		var rp struct {
-			Replay struct {
-				Table int `json:"table"`
-			} `json:"replay"`
-		}
-		if b, err := os.ReadFile(p); err == nil && json.Unmarshal(b, &rp) == nil {
-			only = rp.Replay.Table
-		}
-	}
+	only := replayTable
 	want := 0
 	for i := 0; i < n; i++ {
 		if only >= 0 && i != only {
@@ -1035,6 +1044,7 @@ func main() {
 		}
 	}
 	res.Count("tables", st.tables)
+	res.Count("goroutines_alive_at_end", runtime.NumGoroutine())
 	res.Count("real_tables_created", nTablesMade)
 	res.Count("entries_built_by_command_string", nByCommand)
 	res.Count("entries_built_by_constructor", nByAPI)
